@@ -81,14 +81,18 @@ def run(ck, replay=None):
         cid += 1
         src = L.render(c, cid, 'top', rng)
         eo, ee = L.expected(c)
-        jobs.append({'id': cid, 'src': src, 'repeat': K, 'timeout_ms': 20000})
+        # a pipeline followed by another command: the schedule-sensitive shape (who waits for whom at the
+        # end of a pipeline) - give it more runs
+        ops = [k['op'] for k in c['prog']]
+        follow = any(ops[i] == '|' and any(o != '|' for o in ops[i + 1:]) for i in range(len(ops)))
+        jobs.append({'id': cid, 'src': src, 'repeat': K * (5 if follow else 1), 'timeout_ms': 20000})
         meta[cid] = ('chain', c, src, ''.join(x + '\n' for x in eo), ee, c['exit'], L.nontrivial(c))
     res = prog.run_programs(ck, jobs, perturb=ck.seed * 1000 + 7, tag='c03')
     nontriv = set()
     ok = 0
     for cid, (kind, c, src, eo, ee, eexit, nt) in meta.items():
         x = res.get(cid)
-        ck.cov['evaluations'] += K
+        ck.cov['evaluations'] += len(x['runs']) if x and x.get('runs') else K
         if x is None:
             raise common.Infra('no result for case %d' % cid)
         if x['status'] == 'crashed':
@@ -105,14 +109,15 @@ def run(ck, replay=None):
                 bad = 'internal panic: %s' % r['panic']
             elif kind == 'pipe' and (out != eo or err != ee or r['exit'] != 0):
                 bad = 'run %d: stdout %r stderr %r exit %d; Seq(P): stdout %r stderr %r exit 0' % (k, out, err, r['exit'], eo, ee)
-            elif kind == 'chain' and (out != eo or sorted(err.split('\n')[:-1]) != ee or r['exit'] != eexit):
+            elif kind == 'chain' and (out != eo or sorted(err.split('\n')[:-1]) != ee or r['exit'] != eexit
+                                      or not L.stderr_in_pipeline_order(c, err.split('\n')[:-1])):
                 bad = 'run %d: stdout %r stderr %r exit %d; Seq(P): stdout %r stderr(set) %r exit %d' % (k, out, err, r['exit'], eo, ee, eexit)
             if bad:
                 break
         if bad:
             ck.violation('result:' + src, bad, {'src': src, 'runs': [{'out': r['out'].decode('utf-8', 'replace'), 'err': r['err'].decode('utf-8', 'replace'), 'exit': r['exit']} for r in x['runs'][:8]]})
         else:
-            ok += K
+            ok += len(x["runs"])
             if nt:
                 nontriv.add(src)
                 if len(ck.cov['samples']) < 4 and kind == 'pipe' and len(c['prog']) == 1 and len(c['prog'][0]['stages']) == 3:
